@@ -203,7 +203,7 @@ func main() {
 		if k.w >= 2 {
 			distinct.Add(fmt.Sprintf("%d/%d/%v", k.w, k.p, k.def))
 		}
-		name := fmt.Sprintf("w=%d,p=%d", k.w, k.p)
+		name := fmt.Sprintf("p=%02d,w=%03d", k.p, k.w)
 		if k.def {
 			name += ",default"
 		}
